@@ -20,6 +20,7 @@ package main
 
 import (
 	"bytes"
+	"sync/atomic"
 	"context"
 	"flag"
 	"fmt"
@@ -65,6 +66,7 @@ type probe struct {
 	shaped           bool   // plen/slen describe the (crafted) first segment the probe was cut from / extended
 	plen, slen       int
 	closeAfter       bool // TCP: the prober closes the connection right after writing
+	lazy             func(p *probe) // fills data (and sid) at the moment of sending: key slot, timestamp and nonce are then current
 	expectSession    bool // a complete segment made with a registered credential: must be accepted (sanity of the crafting)
 }
 
@@ -128,6 +130,8 @@ type genuine struct {
 	stop, done chan struct{}
 	rounds     int
 	err        error
+	paused     atomic.Bool
+	started    time.Time
 }
 
 func (e *env) startGenuine(user, ipAddr string, rng *vh.Rng, first []byte) (*genuine, error) {
@@ -142,7 +146,7 @@ func (e *env) startGenuine(user, ipAddr string, rng *vh.Rng, first []byte) (*gen
 		mux.Close()
 		return nil, err
 	}
-	g := &genuine{mux: mux, conn: conn, stop: make(chan struct{}), done: make(chan struct{})}
+	g := &genuine{mux: mux, conn: conn, stop: make(chan struct{}), done: make(chan struct{}), started: time.Now()}
 	if err := g.echo(first); err != nil {
 		conn.Close()
 		mux.Close()
@@ -155,6 +159,9 @@ func (e *env) startGenuine(user, ipAddr string, rng *vh.Rng, first []byte) (*gen
 			case <-g.stop:
 				return
 			case <-time.After(time.Second):
+			}
+			if g.paused.Load() {
+				continue
 			}
 			if err := g.echo(rng.Bytes(rng.Range(1, 3000))); err != nil {
 				g.err = err
@@ -301,6 +308,19 @@ func lenClass(n int) int {
 	}
 }
 
+// materialise seals a lazily crafted probe now, and cross-checks the claimed 'opens' attribute with refcodec.
+func materialise(p *probe) {
+	if p.lazy != nil {
+		p.lazy(p)
+		p.lazy = nil
+	}
+	if p.tag != "R" {
+		if o, _ := headerOpens(p.data, time.Now()); o != p.opens {
+			panic("driver bug: a probe's 'opens' attribute is wrong: " + p.kind + " " + p.info)
+		}
+	}
+}
+
 type tcpPending struct {
 	ps     []probe
 	conns  []*simnet.Conn
@@ -312,7 +332,9 @@ type tcpPending struct {
 // tcpFire opens one connection per probe, writes the bytes and samples the session list 2 s later.
 func (e *env) tcpFire(ps []probe, sigPrefix string) *tcpPending {
 	h := &tcpPending{ps: ps, conns: make([]*simnet.Conn, len(ps)), sessAt: map[string]int{}, pos: len(e.rg.Net.Log.Snapshot()), prefix: sigPrefix}
-	for i, p := range ps {
+	for i := range ps {
+		materialise(&ps[i])
+		p := ps[i]
 		c, err := e.rg.Net.DialFrom(p.srcIP, serverAddr)
 		if err != nil {
 			panic(fmt.Sprintf("dial: %v", err))
@@ -385,11 +407,13 @@ func (e *env) udpBatch(ps []probe, wait time.Duration, sigPrefix string) {
 	srcs := make([]simnet.Addr, len(ps))
 	before := len(e.sessionList())
 	pos := len(e.rg.Net.Log.Snapshot())
-	for i, p := range ps {
+	for i := range ps {
+		materialise(&ps[i])
+		p := ps[i]
 		e.udpPort++
 		srcs[i] = simnet.Addr{Net: "udp", IP: p.srcIP, Prt: e.udpPort}
 		e.rg.Net.SendRaw(srcs[i], serverAddr, p.data)
-		if i%25 == 24 {
+		if i%100 == 99 {
 			time.Sleep(500 * time.Millisecond) // spread the probes over the genuine client's echo rounds
 		}
 	}
@@ -582,6 +606,99 @@ func fieldOf(bit int) string {
 	}
 }
 
+// exactSourceProbes sends probes from the EXACT address (ip:port) of the live genuine client, where the ciphers of its
+// session are tried first.  Datagrams the server sends to that address cannot be told from its traffic to the genuine
+// client by address, so they are attributed by causality:
+//   - the genuine client's echo loop is paused (its session stays open); after a settling time the server's datagrams
+//     to the address are counted over a CONTROL window without probes (only the session's own ack / heartbeat
+//     schedule), then over an equally long window WITH the probes: a server that answers probes sends at least one
+//     datagram per answered probe more (60+ probes against a handful of heartbeats);
+//   - every datagram of the probe window is opened with the session's key (the key slot of the session's start, which a
+//     long-lived UDP session keeps using, or a current one) and must be a server-to-client data/ack/open-response
+//     segment of the genuine session's id; anything else - undecodable, a close request, another session id - was not
+//     caused by the genuine session.
+func (e *env) exactSourceProbes(g *genuine, c *capture, rng *vh.Rng) {
+	gsrc := ""
+	var first []byte
+	for _, ev := range e.rg.Net.Log.Snapshot() {
+		if h, _, _ := net.SplitHostPort(ev.Src); ev.Kind == "udp-send" && h == genuineIP && ev.Dst == serverAddr {
+			if gsrc == "" {
+				gsrc, first = ev.Src, ev.Data
+			}
+		}
+	}
+	if gsrc == "" {
+		return
+	}
+	keysStart := allKeys(g.started)
+	var gsid uint32
+	if seg, _, err := refcodec.DecodeDatagram(keysStart, first); err == nil {
+		gsid = seg.Meta.SessionID
+	}
+	host, portS, _ := net.SplitHostPort(gsrc)
+	var port int
+	fmt.Sscan(portS, &port)
+	var xs []probe
+	for bit := 3; bit < 8*hdrLen; bit += 11 {
+		xs = append(xs, probe{tag: "P", tsOK: true, kind: "bitflip-exact-source", field: fieldOf(bit), data: flipBit(c.stream, bit), srcIP: host})
+	}
+	for _, n := range []int{0, 71, 72, 100, 1400} {
+		xs = append(xs, probe{tag: "P", tsOK: true, kind: "random-exact-source", field: "none", data: rng.Bytes(n), srcIP: host})
+	}
+	window := time.Duration(len(xs))*100*time.Millisecond + 3*time.Second
+	count := func(from int) (n, foreign int, what string) {
+		for _, ev := range e.rg.Net.Log.Snapshot()[from:] {
+			if ev.Kind != "udp-send" || ev.Src != serverAddr || ev.Dst != gsrc {
+				continue
+			}
+			n++
+			seg, _, err := refcodec.DecodeDatagram(append(allKeys(time.Unix(0, ev.T)), keysStart...), ev.Data)
+			ok := err == nil && seg.Meta.SessionID == gsid &&
+				(seg.Meta.Proto == refcodec.DataServerToClient || seg.Meta.Proto == refcodec.AckServerToClient ||
+					seg.Meta.Proto == refcodec.DataServerToClientLE || seg.Meta.Proto == refcodec.OpenSessionResponse)
+			if !ok {
+				foreign++
+				if what == "" {
+					if err != nil {
+						what = "undecodable: " + err.Error()
+					} else {
+						what = fmt.Sprintf("protocol %d session %d (genuine session %d)", seg.Meta.Proto, seg.Meta.SessionID, gsid)
+					}
+				}
+			}
+		}
+		return
+	}
+	g.paused.Store(true)
+	time.Sleep(4 * time.Second) // the round in flight ends, its acks are exchanged
+	pos0 := len(e.rg.Net.Log.Snapshot())
+	time.Sleep(window)
+	control, _, _ := count(pos0)
+	pos1 := len(e.rg.Net.Log.Snapshot())
+	for _, p := range xs {
+		e.rg.Net.SendRaw(simnet.Addr{Net: "udp", IP: host, Prt: port}, serverAddr, p.data)
+		time.Sleep(100 * time.Millisecond)
+	}
+	time.Sleep(3 * time.Second)
+	during, foreign, what := count(pos1)
+	g.paused.Store(false)
+	e.r.Count(fmt.Sprintf("udp:exact-source control=%d during=%d", control, during))
+	caused := foreign
+	if extra := during - control - 3; extra > caused {
+		caused = extra // more datagrams than the session's own schedule explains (slack: 3 heartbeats)
+	}
+	for i, p := range xs {
+		o := obs{}
+		if i == 0 {
+			o.dgramsTo = caused // reported once, on the first probe of the window
+			if caused > 0 {
+				p.info = fmt.Sprintf("server datagrams to the genuine address: %d in the control window, %d in the probe window, %d of them not segments of the genuine session (%s)", control, during, foreign, what)
+			}
+		}
+		e.judge(p, gsrc, o, "")
+	}
+}
+
 // ---------------------------------------------------------------- probe mode
 
 func forgedHandshake(rng *vh.Rng, keyUser, keyPass, hintUser string, transport string, payload int) []byte {
@@ -674,9 +791,6 @@ func runProbe(r *vh.Run, transport, label string, sp, cp *appctlpb.TrafficPatter
 			rest = c.stream[:c.segEnd[0]]
 		}
 		step := 1
-		if !full {
-			step = 5
-		}
 		for bit := ci % step; bit < 8*hdrLen; bit += step {
 			d := flipBit(rest, bit)
 			// the server has seen the genuine header: a flip outside the first 16 bytes keeps the signature
@@ -716,21 +830,21 @@ func runProbe(r *vh.Run, transport, label string, sp, cp *appctlpb.TrafficPatter
 		nforge = 40
 	}
 	for i := 0; i < nforge; i++ {
-		pl := []int{0, 10, 1024}[i%3]
-		add(probe{kind: "wrong-password", field: "key", data: forgedHandshake(rng, "alice", "not-alices-password", "alice", transport, pl)})
-		add(probe{kind: "unknown-user", field: "key", data: forgedHandshake(rng, "mallory", "mallory-password", "mallory", transport, pl)})
-		add(probe{kind: "real-hint-foreign-key", field: "key", data: forgedHandshake(rng, "mallory", "mallory-password", "bob", transport, pl)})
-		add(probe{kind: "password-of-other-user", field: "key", data: forgedHandshake(rng, "alice", users["bob"], "alice", transport, pl)})
+		plc := []int{0, 10, 1024}[i%3]
+		add(probe{kind: "wrong-password", field: "key", lazy: func(p *probe) { p.data = forgedHandshake(rng, "alice", "not-alices-password", "alice", transport, plc) }})
+		add(probe{kind: "unknown-user", field: "key", lazy: func(p *probe) { p.data = forgedHandshake(rng, "mallory", "mallory-password", "mallory", transport, plc) }})
+		add(probe{kind: "real-hint-foreign-key", field: "key", lazy: func(p *probe) { p.data = forgedHandshake(rng, "mallory", "mallory-password", "bob", transport, plc) }})
+		add(probe{kind: "password-of-other-user", field: "key", lazy: func(p *probe) { p.data = forgedHandshake(rng, "alice", users["bob"], "alice", transport, plc) }})
 	}
 	// 5. truncations and extensions of complete first segments made with a registered credential. Every probe is cut
 	// from its own freshly sealed segment (new nonce), so the replay cache never hides what the parser does with it.
 	shapes := []shape{{"alice", 0, 37}, {"bob", 48, 255}}
-	if r.Thorough() {
+	if r.Thorough() && full {
 		shapes = append(shapes, shape{"alice", 1024, 255}, shape{"bob", 1, 1}, shape{"alice", 300, 128}, shape{"bob", 0, 255})
 	}
 	for _, sh := range shapes {
-		full, sid := craft(rng, transport, sh.user, sh.payload, sh.pad)
-		total := len(full)
+		whole, sid := craft(rng, transport, sh.user, sh.payload, sh.pad)
+		total := len(whole)
 		base := probe{opens: true, sid: sid, shaped: true, plen: sh.payload, slen: sh.pad}
 		where := func(n int) string {
 			box := 0
@@ -746,7 +860,9 @@ func runProbe(r *vh.Run, transport, label string, sp, cp *appctlpb.TrafficPatter
 		}
 		// the complete segment is accepted (sent from a genuine address so that the session is served)
 		g := base
-		g.kind, g.field, g.data, g.srcIP, g.expectSession = "crafted-complete", "none", full, captureIP, true
+		g.kind, g.field, g.srcIP, g.expectSession = "crafted-complete", "none", captureIP, true
+		shp0 := sh
+		g.lazy = func(p *probe) { p.data, p.sid = craft(rng, transport, shp0.user, shp0.payload, shp0.pad) }
 		g.info = fmt.Sprintf("%s payload %d padding %d", sh.user, sh.payload, sh.pad)
 		add(g)
 		ps[len(ps)-1].tag = "G"
@@ -755,9 +871,13 @@ func runProbe(r *vh.Run, transport, label string, sp, cp *appctlpb.TrafficPatter
 				if transport == "udp" && v == 1 {
 					continue
 				}
-				d, sid2 := craft(rng, transport, sh.user, sh.payload, sh.pad)
 				q := base
-				q.sid, q.data, q.field = sid2, d[:n], where(n)
+				q.field = where(n)
+				cut, shp := n, sh
+				q.lazy = func(p *probe) {
+					d, sid2 := craft(rng, transport, shp.user, shp.payload, shp.pad)
+					p.data, p.sid = d[:cut], sid2
+				}
 				q.kind = "segment-prefix-stall"
 				if v == 1 {
 					q.kind, q.closeAfter = "segment-prefix-close", true
@@ -769,7 +889,7 @@ func runProbe(r *vh.Run, transport, label string, sp, cp *appctlpb.TrafficPatter
 		if transport == "udp" {
 			var ks []int
 			maxK := 1500 - total
-			if r.Thorough() {
+			if r.Thorough() && full {
 				for k := 1; k <= maxK; k++ {
 					ks = append(ks, k)
 				}
@@ -781,64 +901,22 @@ func runProbe(r *vh.Run, transport, label string, sp, cp *appctlpb.TrafficPatter
 				}
 			}
 			for _, k := range ks {
-				d, sid2 := craft(rng, transport, sh.user, sh.payload, sh.pad)
 				q := base
-				q.sid, q.kind, q.field = sid2, "datagram-extension", fmt.Sprintf("plus-%d", k)
-				q.data = append(d, rng.Bytes(k)...)
+				q.kind, q.field = "datagram-extension", fmt.Sprintf("plus-%d", k)
+				extra, shp := k, sh
+				q.lazy = func(p *probe) {
+					d, sid2 := craft(rng, transport, shp.user, shp.payload, shp.pad)
+					p.data, p.sid = append(d, rng.Bytes(extra)...), sid2
+				}
 				q.info = fmt.Sprintf("%s payload %d padding %d: complete datagram of %d bytes followed by %d extra bytes", sh.user, sh.payload, sh.pad, total, k)
 				add(q)
 			}
 		}
 	}
-	// cross-check the claimed attributes with the independent codec
-	for i := range ps {
-		if o, _ := headerOpens(ps[i].data, time.Now()); o != ps[i].opens {
-			panic("driver bug: a probe's 'opens' attribute is wrong: " + ps[i].kind + " " + ps[i].info)
-		}
-	}
 	e.batch(ps, "")
 
 	if transport == "udp" {
-		// probes from the EXACT address (ip:port) of the live genuine client: the ciphers of its session are tried first.
-		// Replies cannot be told from genuine traffic by address, so every server datagram to that address is decoded:
-		// it must belong to the genuine session (anything else, or a close, is caused by the probes).
-		gsrc := ""
-		for _, ev := range e.rg.Net.Log.Snapshot() {
-			if h, _, _ := net.SplitHostPort(ev.Src); ev.Kind == "udp-send" && h == genuineIP {
-				gsrc = ev.Src
-			}
-		}
-		if gsrc != "" {
-			host, portS, _ := net.SplitHostPort(gsrc)
-			var port int
-			fmt.Sscan(portS, &port)
-			pos := len(e.rg.Net.Log.Snapshot())
-			var xs []probe
-			for bit := 3; bit < 8*hdrLen; bit += 11 {
-				xs = append(xs, probe{tag: "P", tsOK: true, kind: "bitflip-exact-source", field: fieldOf(bit), data: flipBit(caps[0].stream, bit), srcIP: host})
-			}
-			for _, n := range []int{0, 71, 72, 100, 1400} {
-				xs = append(xs, probe{tag: "P", tsOK: true, kind: "random-exact-source", field: "none", data: rng.Bytes(n), srcIP: host})
-			}
-			for _, p := range xs {
-				e.rg.Net.SendRaw(simnet.Addr{Net: "udp", IP: host, Prt: port}, serverAddr, p.data)
-				time.Sleep(100 * time.Millisecond)
-			}
-			time.Sleep(3 * time.Second)
-			bad := 0
-			for _, ev := range trace.UDP(e.rg.Net.Log.Snapshot()[pos:], creds()) {
-				if ev.Kind == "send" && ev.Src == serverAddr && ev.Dst == gsrc {
-					if ev.Seg == nil || ev.Seg.Meta.Proto == refcodec.CloseSessionRequest || ev.Seg.Meta.Proto == refcodec.CloseSessionResponse {
-						bad++
-					}
-				}
-			}
-			for _, p := range xs {
-				o := obs{dgramsTo: bad}
-				e.judge(p, gsrc, o, "")
-				bad = 0 // report once
-			}
-		}
+		e.exactSourceProbes(g, caps[0], rng)
 	}
 
 	rounds, gerr := g.finish()
@@ -1064,7 +1142,7 @@ func main() {
 			}
 			for i, p := range pats {
 				for _, tr := range transports() {
-					runProbe(r, tr, fmt.Sprintf("pattern%d", i), p, p, true)
+					runProbe(r, tr, fmt.Sprintf("pattern%d", i), p, p, false)
 				}
 			}
 		}
